@@ -17,6 +17,7 @@ from .facts import expr_str
 from .flow import ReachingDefs, var_id
 
 INF = None
+_RD = {}
 
 
 class Bounds(object):
@@ -24,7 +25,11 @@ class Bounds(object):
         self.db = db
         self.f = f
         self.at = at
-        self.rd = ReachingDefs(f, db)
+        self.rd = _RD.get(f.key)
+        if self.rd is None:
+            if len(_RD) > 64:
+                _RD.clear()
+            self.rd = _RD[f.key] = ReachingDefs(f, db)
         self.facts = []
         for cn, pol in f.guard_conds(f.nblock[at]):
             if cn is None or not isinstance(pol, bool):
@@ -151,6 +156,14 @@ class Bounds(object):
                 lb, ub = 0, b[0]
             elif op == "%" and b[1] is not None and b[1] > 0:
                 lb, ub = 0, b[1] - 1
+        elif k == "un" and n.get("op") in ("++", "--") and n.get("post"):
+            # value of a postfix increment/decrement: the operand's value before it
+            save = self.at
+            self.at = n["i"]                          # reaching definitions in front of the increment itself
+            try:
+                return self.interval(n["a"][0], depth + 1)
+            finally:
+                self.at = save
         elif k == "cond":
             # each arm is evaluated under the condition that selects it
             cn = f.nodes.get(n["a"][0])
